@@ -1215,6 +1215,28 @@ func (mgr *Manager) UpdateTag(name string, operation UpdateTagOperation) error {
 			if !ok {
 				return fmt.Errorf("unknown tag %q", name)
 			}
+			if newTag != nil {
+				// check if all referenced tags exist and that the new definition does not
+				// reference this tag through another tag
+				pending := newTag.referencedTags()
+				checked := map[string]struct{}{}
+				for len(pending) != 0 {
+					rtn := pending[len(pending)-1]
+					pending = pending[:len(pending)-1]
+					if rtn == name {
+						return errors.New("reference cycle not allowed in tags")
+					}
+					if _, ok := checked[rtn]; ok {
+						continue
+					}
+					checked[rtn] = struct{}{}
+					rt, ok := mgr.tags[rtn]
+					if !ok {
+						return fmt.Errorf("unknown referenced tag %q", rtn)
+					}
+					pending = append(pending, rt.referencedTags()...)
+				}
+			}
 			if info.color != "" {
 				tag.color = info.color
 			}
